@@ -16,7 +16,7 @@ from vf import ref_schema as S
 from vf import ref_sgml
 from vf import ref_types as R
 from vf import universe as U
-from vf.core import HarnessError, Tally, deviations
+from vf.core import vacuous, HarnessError, Tally, deviations
 
 LEVEL = "exploration"
 
@@ -560,19 +560,19 @@ def run(ctx):
     jobs += [tuple(j) for j in hjobs]
     tally = ctx.pmap(work, jobs, chunk=1 if len(jobs) < 4000 else 8)
     if tally.counts.get("histories", 0) < 200:
-        raise HarnessError(f"vacuous: {tally.counts}")
+        vacuous(tally, f"vacuous: {tally.counts}")
     if not tally.fails and not any(o.startswith("disturb-") and "raised" in o for o in tally.outcomes):
-        raise HarnessError("vacuous: no disturbing call ever failed")
+        vacuous(tally, "vacuous: no disturbing call ever failed")
     if tally.counts.get("compositions", 0) < 5000:
-        raise HarnessError(f"vacuous: {tally.counts}")
+        vacuous(tally, f"vacuous: {tally.counts}")
     if not tally.fails:
         for o in ("ok-v2", "ok-v2-pretty", "ok-v1-closed", "ok-v1-closed-pretty", "ok-v1-unclosed", "ok-v1-unclosed-pretty", "v2-unclosed-refused-ctor", "v2-unclosed-refused-serialize"):
             if o not in tally.outcomes:
-                raise HarnessError(f"vacuous: {o} never observed")
+                vacuous(tally, f"vacuous: {o} never observed")
     tally.sample({"cfg": cfgs[1], "seq": ["StmtRq", "StmtEndRq", "InvStmtRq"], "spec0": {k: str(v) for k, v in make_request("StmtRq", 0, 7).items()}})
     cov = {
-        "evaluations": tally.counts["evaluations"],
-        "distinct_nontrivial": tally.counts["compositions"],
+        "evaluations": tally.counts.get("evaluations", 0),
+        "distinct_nontrivial": tally.counts.get("compositions", 0),
         "rule": ("client configurations within <=2 deviations of the default" if ctx.quick else "full product of client configurations") +
         " over wire form (v2/v1 x pretty x end tags, one dimension) x version within the major version x FI {none, ORG, ORG+FID with markup chars} x CLIENTUID x app id/version x language x credentials {plain, all 95 printable "
         "ASCII characters} x request lists: all 156 sequences of length 0..3 over the five statement request kinds (account ids with & < > quotes, 5 date options incl. -5:30, +14:00, "
@@ -580,7 +580,7 @@ def run(ctx):
         "each composition read by the strict reference reader and by the library, both compared with the expected request; + call histories: on one client per wire form every sequence of <= "
         + ("3" if ctx.thorough else "2") + " earlier calls out of 7 (per-call version/format overrides that succeed, are refused locally or fail on the network; a request that cannot be composed; "
         "plain dry runs) followed by a composition that must still obey the client's configuration; distinct_nontrivial = compositions",
-        "configs": tally.counts["configs"],
+        "configs": tally.counts.get("configs", 0),
         "exhaustive": True,
     }
     return {"tally": tally, "coverage": cov, "assumptions": ["TRNUID / NEWFILEUID are checked for shape and distinctness, DTCLIENT for lying within the call's duration", "order of wrappers of different kinds inside one message set is not pinned down; order within a kind is"]}
